@@ -78,6 +78,14 @@ func (env *evalEnv) readComp(name, sort string) string {
 	return r.heap.get(env.state(), name, sort)
 }
 
+// readAt reads component name at reference ref.
+func (env *evalEnv) readAt(name, sort, ref string) string {
+	if env.post != nil && !env.inOld {
+		return env.post.read(name, sort, ref)
+	}
+	return sel(env.fr.run.heap.get(env.state(), name, sort), ref)
+}
+
 func (fr *Frame) evalExpr(e Expr, env *evalEnv) (Value, error) {
 	r := fr.run
 	switch x := e.(type) {
@@ -394,8 +402,7 @@ func (fr *Frame) selectField(v Value, name string, env *evalEnv) (Value, error) 
 			}
 			terms := make([]string, len(ls))
 			for j, l := range ls {
-				h := env.readComp(fieldComp(st, f)+l.suffix, sArr(sRef, l.sort))
-				terms[j] = sel(h, x.T)
+				terms[j] = env.readAt(fieldComp(st, f)+l.suffix, sArr(sRef, l.sort), x.T)
 			}
 			val := valueFromLeaves(f.Type(), terms)
 			return val, nil
@@ -422,8 +429,7 @@ func (fr *Frame) indexValue(v, iv Value, env *evalEnv) (Value, error) {
 		}
 		terms := make([]string, len(ls))
 		for j, l := range ls {
-			h := env.readComp(elemComp(x.Elem)+l.suffix, sArr(sRef, sArr(sBV(64), l.sort)))
-			terms[j] = sel(sel(h, x.Base), "(bvadd "+x.Off+" "+idx+")")
+			terms[j] = sel(env.readAt(elemComp(x.Elem)+l.suffix, sArr(sRef, sArr(sBV(64), l.sort)), x.Base), "(bvadd "+x.Off+" "+idx+")")
 		}
 		return valueFromLeaves(x.Elem, terms), nil
 	case *SeqV:
@@ -442,8 +448,7 @@ func (fr *Frame) indexValue(v, iv Value, env *evalEnv) (Value, error) {
 			if err != nil {
 				return nil, err
 			}
-			h := env.readComp(elemComp(et)+ls[0].suffix, sArr(sRef, sArr(sBV(64), ls[0].sort)))
-			return valueFromLeaves(et, []string{sel(sel(h, x.Ref), idx)}), nil
+			return valueFromLeaves(et, []string{sel(env.readAt(elemComp(et)+ls[0].suffix, sArr(sRef, sArr(sBV(64), ls[0].sort)), x.Ref), idx)}), nil
 		}
 	case *Sc:
 		if x.K == kArr {
@@ -481,12 +486,10 @@ func (fr *Frame) indexValue(v, iv Value, env *evalEnv) (Value, error) {
 				if err != nil {
 					return nil, err
 				}
-				h := env.readComp(has, hs)
-				present := and(not(eq(x.T, refLit(0))), sel(sel(h, x.T), kt))
+				present := and(not(eq(x.T, refLit(0))), sel(env.readAt(has, hs, x.T), kt))
 				terms := make([]string, len(vl))
 				for i, l := range vl {
-					a := env.readComp(vc+l.suffix, sArr(sRef, sArr(ksrt, l.sort)))
-					terms[i] = ite(present, sel(sel(a, x.T), kt), zeroLeaf(l))
+					terms[i] = ite(present, sel(env.readAt(vc+l.suffix, sArr(sRef, sArr(ksrt, l.sort)), x.T), kt), zeroLeaf(l))
 				}
 				val := valueFromLeaves(mt.Elem(), terms)
 				if s, ok := val.(*Sc); ok {
@@ -529,7 +532,7 @@ func scalarOfSort(t, sort string) Value {
 	case sort == sBool:
 		return boolV(t)
 	case sort == sRef:
-		return bv(t, 32, false)
+		return &Sc{T: t, K: kRef, W: 32}
 	case strings.HasPrefix(sort, "(_ BitVec"):
 		return bv(t, sortWidth(sort), false)
 	case strings.HasPrefix(sort, "(Array"):
@@ -559,7 +562,7 @@ func coerce(a, b Value) (Value, Value, error) {
 			return mk(ua, s.W, s.Signed), b, nil
 		}
 		if s, ok := b.(*Sc); ok && s.K == kRef {
-			return bv(bvLit(ua.V, 32), 32, false), bv(s.T, 32, false), nil
+			return &Sc{T: refLit(ua.V), K: kRef, W: 32}, s, nil
 		}
 		if s, ok := b.(*Sc); ok && s.K == kF64 {
 			f := float64(ua.V)
@@ -680,6 +683,16 @@ func (fr *Frame) evalBin(x *EBin, env *evalEnv) (Value, error) {
 			}
 		}
 	}
+	// slice / interface structural equality
+	if sla, ok := a.(*SliceV); ok {
+		if slb, ok := b.(*SliceV); ok && (x.Op == "==" || x.Op == "!=") {
+			e, _ := valuesEqual(sla, slb)
+			if x.Op == "!=" {
+				e = not(e)
+			}
+			return boolV(e), nil
+		}
+	}
 	// struct equality
 	if sva, ok := a.(*StructV); ok {
 		if svb, ok := b.(*StructV); ok && (x.Op == "==" || x.Op == "!=") {
@@ -780,8 +793,7 @@ func (fr *Frame) evalCall(x *ECall, env *evalEnv) (Value, error) {
 		case *Sc:
 			if s.K == kRef && s.Ty != nil {
 				if mt, ok := s.Ty.Underlying().(*types.Map); ok {
-					h := env.readComp("Mp."+typeKey(mt)+".card", sArr(sRef, sBV(64)))
-					return intV(ite(eq(s.T, refLit(0)), bvLit(0, 64), sel(h, s.T))), nil
+					return intV(ite(eq(s.T, refLit(0)), bvLit(0, 64), env.readAt("Mp."+typeKey(mt)+".card", sArr(sRef, sBV(64)), s.T))), nil
 				}
 			}
 		}
@@ -906,7 +918,7 @@ func (fr *Frame) evalCall(x *ECall, env *evalEnv) (Value, error) {
 			return bv(ite(s.T, bvLit(1, w), bvLit(0, w)), w, sg), nil
 		}
 		if s.K == kRef {
-			s = bv(s.T, 32, false)
+			return nil, fmt.Errorf("references cannot be converted to integers")
 		}
 		if x.Fn == "f64" {
 			return convScalar(r, s, kF64, 64, true, nil)
@@ -932,7 +944,7 @@ func (fr *Frame) evalCall(x *ECall, env *evalEnv) (Value, error) {
 		if env.old == nil {
 			return nil, fmt.Errorf("fresh() needs an old state")
 		}
-		return boolV(and("(bvule "+env.old.alloc+" "+ref+")", "(bvult "+ref+" "+env.st.alloc+")")), nil
+		return boolV(and(refLe(env.old.alloc, ref), refLt(ref, env.st.alloc))), nil
 	case "allocated":
 		v, err := arg(0)
 		if err != nil {
@@ -947,7 +959,7 @@ func (fr *Frame) evalCall(x *ECall, env *evalEnv) (Value, error) {
 		case *IfaceV:
 			ref = s.Ref
 		}
-		return boolV("(bvult " + ref + " " + env.state().alloc + ")"), nil
+		return boolV(and(refLe("0", ref), refLt(ref, env.state().alloc))), nil
 	case "base":
 		v, err := arg(0)
 		if err != nil {
@@ -996,6 +1008,37 @@ func (fr *Frame) evalCall(x *ECall, env *evalEnv) (Value, error) {
 		}
 		r.declareOnce("(declare-fun err.wraps (" + sRef + " " + sRef + ") Bool)")
 		return boolV(or(and(eq(ia.Tag, ib.Tag), eq(ia.Ref, ib.Ref)), "(err.wraps "+ia.Ref+" "+ib.Ref+")")), nil
+	case "mulok":
+		// mulok(a, b): the signed product a*b does not overflow
+		a, err := arg(0)
+		if err != nil {
+			return nil, err
+		}
+		b, err := arg(1)
+		if err != nil {
+			return nil, err
+		}
+		a, b, err = coerce(a, b)
+		if err != nil {
+			return nil, err
+		}
+		sa, sb := a.(*Sc), b.(*Sc)
+		if sa.Signed {
+			return boolV("(and (bvsmul_noovfl " + sa.T + " " + sb.T + ") (bvsmul_noudfl " + sa.T + " " + sb.T + "))"), nil
+		}
+		return boolV("(bvumul_noovfl " + sa.T + " " + sb.T + ")"), nil
+	case "elemsOf", "bytesOf":
+		// the contents of a slice as an abstract sequence value (compare with ==)
+		v, err := arg(0)
+		if err != nil {
+			return nil, err
+		}
+		sq, err := fr.toSeq(v, env)
+		if err != nil {
+			return nil, err
+		}
+		s := sq.(*SeqV)
+		return &Sc{T: r.seqOf(s.ElemSort, s.Arr, s.Off, s.Len), K: kArr, Sort: "Seq." + sanitize(s.ElemSort)}, nil
 	case "seq":
 		// seq(s): the contents of slice s as an abstract sequence in the current state
 		v, err := arg(0)
@@ -1046,8 +1089,7 @@ func (fr *Frame) evalCall(x *ECall, env *evalEnv) (Value, error) {
 			return nil, fmt.Errorf("%s: %v", x.Fn, err)
 		}
 		srt := specSort(g.Type)
-		h := env.readComp("G."+g.Name, sArr(sRef, srt))
-		return specScalar(sel(h, ref), g.Type), nil
+		return specScalar(env.readAt("G."+g.Name, sArr(sRef, srt), ref), g.Type), nil
 	}
 	// spec function
 	if sf, ok := r.eng.specs.SpecFuncs[x.Fn]; ok {
@@ -1078,7 +1120,7 @@ func (fr *Frame) evalCall(x *ECall, env *evalEnv) (Value, error) {
 func refOf(v Value) (string, error) {
 	switch s := v.(type) {
 	case *Sc:
-		if s.K == kRef || (s.K == kBV && s.W == 32) {
+		if s.K == kRef {
 			return s.T, nil
 		}
 	case *IfaceV:
@@ -1098,8 +1140,7 @@ func (fr *Frame) toSeq(v Value, env *evalEnv) (Value, error) {
 		if err != nil || len(ls) != 1 {
 			return nil, fmt.Errorf("sequence of %s", s.Elem)
 		}
-		h := env.readComp(elemComp(s.Elem), sArr(sRef, sArr(sBV(64), ls[0].sort)))
-		return &SeqV{Arr: sel(h, s.Base), Off: s.Off, Len: s.Len, ElemSort: ls[0].sort, ElemK: ls[0].k, ElemW: ls[0].w, ElemSigned: ls[0].signed, ElemTy: s.Elem}, nil
+		return &SeqV{Arr: env.readAt(elemComp(s.Elem), sArr(sRef, sArr(sBV(64), ls[0].sort)), s.Base), Off: s.Off, Len: s.Len, ElemSort: ls[0].sort, ElemK: ls[0].k, ElemW: ls[0].w, ElemSigned: ls[0].signed, ElemTy: s.Elem}, nil
 	}
 	return nil, fmt.Errorf("cannot view %T as a sequence", v)
 }
